@@ -112,7 +112,8 @@ def _main(pid, args, seed):
     meta = mod.META
     import shutil
 
-    shutil.rmtree(os.path.join(VERIF_DIR, "out", "violations", pid), ignore_errors=True)
+    if not args.replay:
+        shutil.rmtree(os.path.join(VERIF_DIR, "out", "violations", pid), ignore_errors=True)
     violations = []  # slots
     known_lines = {}
 
